@@ -1071,12 +1071,17 @@ theorem unquote_quote (html : Bool) (s : Str) : unquote (quote html s) = some s 
     simp only [List.length_append, List.length_cons]; omega)]
   simp
 
-/-- the text `NewMapJson` decodes when the input starts with '[' -/
+/-- the text the PINNED `NewMapJson` decoded when the input starts with '[' (repaired defect
+    F-JSON-ARRAYTAIL; kept as documentation, see `wrapObj_shape` and the examples in C06) -/
 def wrapObj (s : Str) : Str := "{\"object\":".toList ++ s ++ ['}']
+
+/-- the array branch of `NewMapJson`: the first value under the key "object" -/
+def wrapVal (v : Val) : Val := .map [(objKey, v)]
 
 theorem newMapJson_eq (s : Str) (hs : s ≠ []) :
     newMapJson s =
-      (match firstValue (if (skipWs s).head? = some '[' then wrapObj s else s) with
+      if (skipWs s).head? = some '[' then (firstValue s).map wrapVal
+      else (match firstValue s with
         | some (.map m) => some (.map m)
         | some .null => some .null
         | _ => none) := by
@@ -1098,12 +1103,25 @@ theorem newMapJson_mapJson (safe : Bool) (m : Entries) (hm : JsonShaped (.map m)
   simp only [List.head?_cons, Option.some.injEq]
   rw [if_neg (by decide), hf]
 
+/-- … and whatever follows the encoded Map is not looked at -/
+theorem newMapJson_mapJson_tail (safe : Bool) (m : Entries) (hm : JsonShaped (.map m) = true)
+    (rest : Str) :
+    newMapJson (mapJson safe (.map m) ++ rest) = some (Val.norm (.map m)) := by
+  have hn := jsonShaped_norm _ hm
+  have hf := firstValue_encN safe _ hn rest (fun t h => by simp [Val.norm] at h)
+  unfold mapJson
+  simp only [Val.norm] at hf ⊢
+  have he : encN safe (Val.map (sortByKey (Val.normEntries m)))
+      = '{' :: (encEntries safe (sortByKey (Val.normEntries m)) ++ ['}']) := by simp [encN]
+  rw [he] at hf ⊢
+  rw [newMapJson_eq _ (by simp), List.cons_append, skipWs_cons_of _ _ (by decide)]
+  simp only [List.head?_cons, Option.some.injEq]
+  rw [if_neg (by decide), ← List.cons_append, hf]
+
 theorem encN_single (html : Bool) (k : Str) (v : Val) :
     encN html (.map [(k, v)]) = '{' :: (quote html k ++ ':' :: (encN html v ++ ['}'])) := by
   simp [encN, encEntries]
 
-/-- the key of the array wrapper, as an explicit character list -/
-def objKey : Str := ['o', 'b', 'j', 'e', 'c', 't']
 theorem objKey_eq : "object".toList = objKey := by decide
 theorem quote_objKey (html : Bool) : quote html objKey = '"' :: (objKey ++ ['"']) := by
   cases html <;> decide
@@ -1113,17 +1131,22 @@ theorem wrapObj_eq (html : Bool) (s : Str) :
   rw [quote_objKey]
   rfl
 
-theorem newMapJson_array (html : Bool) (xs : List Val) (hx : JsonShaped (.list xs) = true) :
-    newMapJson (encN html (.list xs)) = some (.map [(objKey, .list xs)]) := by
-  have hv : JsonShaped (.map [(objKey, .list xs)]) = true := by
-    simp only [JsonShaped] at hx
-    simp [JsonShaped, JsonShapedEntries, distinctKeys, hx]
-  have hf := firstValue_encN html _ hv [] (fun _ _ => rfl)
-  rw [List.append_nil, encN_single, ← wrapObj_eq] at hf
+/-- an encoded array followed by ANY bytes is accepted and comes back, alone, under "object" -/
+theorem newMapJson_array_tail (html : Bool) (xs : List Val) (hx : JsonShaped (.list xs) = true)
+    (rest : Str) :
+    newMapJson (encN html (.list xs) ++ rest) = some (.map [(objKey, .list xs)]) := by
+  have hf := firstValue_encN html _ hx rest (fun _ h => by cases h)
   have h1 : encN html (.list xs) = '[' :: (encList html xs ++ [']']) := by simp [encN]
   rw [h1] at hf ⊢
-  rw [newMapJson_eq _ (by simp), skipWs_cons_of _ _ (by decide)]
-  simp only [List.head?_cons, if_true, hf]
+  rw [newMapJson_eq _ (by simp), List.cons_append, skipWs_cons_of _ _ (by decide)]
+  simp only [List.head?_cons, if_true]
+  rw [← List.cons_append, hf]
+  rfl
+
+theorem newMapJson_array (html : Bool) (xs : List Val) (hx : JsonShaped (.list xs) = true) :
+    newMapJson (encN html (.list xs)) = some (.map [(objKey, .list xs)]) := by
+  have := newMapJson_array_tail html xs hx []
+  rwa [List.append_nil] at this
 
 theorem keys_insert_prefix (k : Str) (v : Val) : ∀ acc : Entries, keys acc <+: keys (insert k v acc)
   | [] => List.nil_prefix
@@ -1182,6 +1205,111 @@ theorem firstValue_eq_some (s : Str) (v : Val) (h : firstValue s = some v) :
     obtain ⟨v', r⟩ := p
     simp only [hv, Option.map_some, Option.some.injEq] at h
     exact ⟨r, by rw [← h]⟩
+
+/-- `elements` returns a list -/
+theorem elements_isList : ∀ (f : Nat) (s : Str) (acc : List Val) (v : Val) (r : Str),
+    elements f s acc = some (v, r) → ∃ xs, v = .list xs := by
+  intro f
+  induction f with
+  | zero => intro s acc v r h; simp [elements] at h
+  | succ f ih =>
+    intro s acc v r h
+    rw [elements] at h
+    split at h
+    · cases h
+    · split at h
+      · exact ih _ _ _ _ h
+      · simp only [Option.some.injEq, Prod.mk.injEq] at h
+        exact ⟨_, h.1.symm⟩
+      · cases h
+
+/-- `value` on a text whose first non-white-space character is '[' -/
+theorem value_bracket_ws (f : Nat) (s r : Str) (h : skipWs s = '[' :: r) :
+    value (f + 1) s = (match skipWs r with
+        | ']' :: r' => some (.list [], r')
+        | r' => elements f r' []) := by
+  rw [value, h]; rfl
+
+theorem value_bracket_isList (f : Nat) (s r : Str) (hs : skipWs s = '[' :: r) (v : Val) (r' : Str)
+    (h : value f s = some (v, r')) : ∃ xs, v = .list xs := by
+  cases f with
+  | zero => simp [value] at h
+  | succ f =>
+    rw [value_bracket_ws f s r hs] at h
+    split at h
+    · simp only [Option.some.injEq, Prod.mk.injEq] at h; exact ⟨[], h.1.symm⟩
+    · exact elements_isList _ _ _ _ _ h
+
+theorem head_skipWs_bracket (s : Str) (hb : (skipWs s).head? = some '[') :
+    ∃ r, skipWs s = '[' :: r := by
+  cases h : skipWs s with
+  | nil => simp [h] at hb
+  | cons c r => simp only [h, List.head?_cons, Option.some.injEq] at hb; exact ⟨r, by rw [hb]⟩
+
+/-- behind a leading '[' the first value, if there is one, is a list -/
+theorem firstValue_bracket_isList (s : Str) (hb : (skipWs s).head? = some '[') (v : Val)
+    (h : firstValue s = some v) : ∃ xs, v = .list xs := by
+  obtain ⟨r, hr⟩ := head_skipWs_bracket s hb
+  obtain ⟨r', hv⟩ := firstValue_eq_some s v h
+  exact value_bracket_isList _ s r hr v r' hv
+
+/-- … and a list is the first value only behind a leading '[' -/
+theorem value_list_head (f : Nat) (s : Str) (xs : List Val) (r : Str)
+    (h : value f s = some (.list xs, r)) : (skipWs s).head? = some '[' := by
+  cases f with
+  | zero => simp [value] at h
+  | succ f =>
+    rw [value] at h
+    split at h
+    · next heq =>
+      exfalso
+      split at h
+      · cases h
+      · obtain ⟨m, hm, _⟩ := members_isMap _ _ _ _ _ h
+        cases hm
+    · next heq => rw [heq]; rfl
+    · next heq =>
+      exfalso
+      simp only [Option.map_eq_some_iff, Prod.mk.injEq] at h
+      obtain ⟨p, _, hp, _⟩ := h
+      cases hp
+    · cases h
+    · cases h
+    · cases h
+    · exfalso
+      simp only [Option.map_eq_some_iff, Prod.mk.injEq] at h
+      obtain ⟨p, _, hp, _⟩ := h
+      cases hp
+
+theorem firstValue_list_head (s : Str) (xs : List Val) (h : firstValue s = some (.list xs)) :
+    (skipWs s).head? = some '[' := by
+  obtain ⟨r, hv⟩ := firstValue_eq_some s _ h
+  exact value_list_head _ s xs r hv
+
+/-- `NewMapJson` as a function of the FIRST VALUE alone (non-empty input): an object or `null` is
+    returned as it is, an array under "object", anything else - and no value - is an error -/
+theorem newMapJson_spec (s : Str) (hs : s ≠ []) :
+    newMapJson s =
+      (match firstValue s with
+        | some (.map m) => some (.map m)
+        | some .null => some .null
+        | some (.list xs) => some (.map [(objKey, .list xs)])
+        | _ => none) := by
+  rw [newMapJson_eq s hs]
+  by_cases hb : (skipWs s).head? = some '['
+  · rw [if_pos hb]
+    cases hfv : firstValue s with
+    | none => rfl
+    | some v =>
+      obtain ⟨xs, rfl⟩ := firstValue_bracket_isList s hb v hfv
+      rfl
+  · rw [if_neg hb]
+    cases hfv : firstValue s with
+    | none => rfl
+    | some v =>
+      cases v with
+      | list xs => exact absurd (firstValue_list_head s xs hfv) hb
+      | _ => rfl
 
 /-- what the array wrapper can produce: a map whose first key is "object" -/
 theorem wrapObj_shape (s : Str) (m : Entries) (h : firstValue (wrapObj s) = some (.map m)) :
